@@ -51,4 +51,22 @@ def handleMLE (req : Json) : Except String Json := do
   let marg : CliqueVec Float ← decCliqueVec (← req.getObjVal? "marg")
   pure (Json.mkObj [("pots", encCliqueVec (mle (α := Float) Factor.log cliques marg))])
 
+/-- `CliqueVector` arithmetic over exact extended rationals (C14): `const*v`, `a+b`, `a-b`, `a.dot(b)`, `a.combine(b)`,
+`CliqueVector.zeros`, `v + const` -/
+def handleCV (req : Json) : Except String Json := do
+  let fn ← (← req.getObjVal? "fn").getStr?
+  let a : CliqueVec ExtQ ← decCliqueVec (← req.getObjVal? "a")
+  let getB : Except String (CliqueVec ExtQ) := do decCliqueVec (← req.getObjVal? "b")
+  let getC : Except String ExtQ := do Codec.dec (← req.getObjVal? "c")
+  match fn with
+  | "smul" => do pure (encCliqueVec (CliqueVec.smul (← getC) a))
+  | "add" => do pure (encCliqueVec (CliqueVec.addV a (← getB)))
+  | "sub" => do pure (encCliqueVec (CliqueVec.subV a (← getB)))
+  | "dot" => do pure (Json.mkObj [("val", Codec.enc (CliqueVec.dotV a (← getB)))])
+  | "combine" => do pure (encCliqueVec (CliqueVec.combine a (← getB)))
+  | "zeros" => do
+    let dom ← decDom (← req.getObjVal? "dom")
+    pure (encCliqueVec (CliqueVec.zerosV (α := ExtQ) dom (a.map Prod.fst)))
+  | _ => throw s!"unknown fn {fn}"
+
 end PGM.Driver
